@@ -1,5 +1,5 @@
 PROP = {
-    "thm": ["Umya.Thm.C11", "Umya.Thm.C11Save"],
+    "thm": ["Umya.Thm.C11", "Umya.Thm.C11Save", "Umya.Thm.C11Local"],
     "harness": "c11",
     "level": "proof",
     "stateful": True,
@@ -21,7 +21,17 @@ PROP = {
                   "(C11_closure_complete). add_file_at_* picks the smallest index that names no part present, never a name of a raw closure, and the relationships part next to the "
                   "new part is free (C11_alloc_no_clash, C11_loaded_rels_fresh); a fixed-name request (media) for a name that is there is dropped (C11_fixed_name_taken). An edit after "
                   "any history is in the saved sheet part (C11_edits_present). For every decoder satisfying the explicit locality predicate DecoderLocal a still-raw sheet decodes in "
-                  "the saved package to what its part decodes to in the opened package (C11_untouched_decodes). The repaired defect is refuted on a decided witness (C11_old_rels_fails, "
+                  "the saved package to what its part decodes to in the opened package (C11_untouched_decodes). For the CONCRETE independent decoder Spec.Sml.decodeSheet (C03's, unchanged) locality is proved "
+                  "(C11_decoder_local: the decoded view .1 - cells, merges, hyperlinks, columns, rows, tables, noR - depends only on the tree of the sheet part, the tree of the relationships part "
+                  "next to it, the trees of the parts its tablePart relationships name, and the shared strings up to the indices the sheet uses; not on the part's name, any other part, or the sizes "
+                  "of cellXfs / dxfs; the diagnostics list quotes the name and is not claimed) and composed with C11_save: C11_save_concrete / C11_save_concrete_sheet - for concrete packages P, P' that "
+                  "realise the opened and the saved abstract package, a still-raw sheet at position j decodes under sheet{j+1}.xml of P' with the saved string table to what its part decodes to in P "
+                  "(no DecoderLocal hypothesis; the name hypotheses are theorems for xl/worksheets/sheet{n}.xml: C11_sheet_paths). The fuel of the reader model is proved sufficient: for every package "
+                  "whose relationship graph is acyclic (explicit rank function on a set of relationships parts closed under following relationships) readClosure with parts+1 fuel equals readClosure "
+                  "with any larger fuel and is `some` when every target exists (C11_read_closure_fuel, C11_open_raw_fuel; pigeonhole on the names present, no bound on the rank); without ANY hypothesis on the graph: whatever "
+                  "any fuel reads, parts+1 fuel reads (C11_read_closure_any_fuel, C11_open_raw_any_fuel: `none` from the model never means 'fuel constant too small'); on a cyclic graph it "
+                  "is `none` for every fuel (C11_read_closure_cyclic) - the code overflows its stack there, in lazy AND eager mode (recorded by the harness in a child process: cyclic.* counters). "
+                  "The repaired defect is refuted on a decided witness (C11_old_rels_fails, "
                   "C11_old_rels_lost) and the fixed writer decided on it (C11_new_rels_witness). The tie: corpus and generated files (now also with one picture shared by several sheets: "
                   "overlapping closures) opened lazily and eagerly, every request applied to both; the reader model lazyOpen is run on the harness' description of the zip and compared "
                   "with the harness' own closure computation (open=1); after EVERY state-changing request the raw state of the implementation (hook verif_raw_state: part names, "
@@ -38,8 +48,14 @@ PROP = {
                         "C11_save_names_unique", "C11_save_sheet_parts", "C11_save_resolves",
                         "C11_lazyOpen_consistent", "C11_consistent_step", "C11_consistent_reachable", "C11_consistent_iff", "C11_closure_complete",
                         "C11_save", "C11_alloc_no_clash", "C11_fixed_name_taken", "C11_loaded_rels_fresh", "C11_edits_present", "C11_untouched_decodes",
-                        "C11_old_rels_fails", "C11_old_rels_lost", "C11_new_rels_witness"],
-    "rule": "files: 8 corpus files (quick) / the whole corpus (thorough) + library-generated multi-sheet files (comments, tables, merges, external "
+                        "C11_old_rels_fails", "C11_old_rels_lost", "C11_new_rels_witness",
+                        "C11_read_closure_fuel", "C11_open_raw_fuel", "C11_read_closure_any_fuel", "C11_open_raw_any_fuel", "C11_read_closure_cyclic",
+                        "C11_decoder_local", "C11_save_concrete", "C11_save_concrete_sheet", "C11_sheet_paths"],
+    "rule": "closure depth: 2 (quick) / 6 (thorough) extra generated files `gen:d<seed>` with a chart and a picture forced on every sheet (sheet rels -> drawing rels -> chart / image), counters "
+            "closure.depth.{0,1,2,3+} and closure.parts.<n> per sheet of every opened file; once per run the two cyclic packages (drawing rels -> sheet, drawing rels -> itself) are opened lazily and "
+            "eagerly in a child process (cyclic.<variant>.<mode>.<outcome>, counted only), and the requests `c11 cyc sheet|self|none` send the description of those packages (and of the same package without the extra "
+            "relationship) to the model: its reader's open=0/1 is compared with whether the real lazy reader came back with a workbook (stack overflow = open=0; informational: the model with "
+            "ten times the fuel). files: 8 corpus files (quick) / the whole corpus (thorough) + library-generated multi-sheet files (comments, tables, merges, external "
             "hyperlinks, charts whose series live on another sheet), each also with its sheet parts renamed so that part number != position; "
             "per file 40 (quick) / 24-40 (thorough, all 55 corpus files + 20 generated) histories: ALL ordered subsets of sheets to materialise for files with <= 4 sheets, random orders "
             "for more; accesses through read / getmut / byname / edit; interleaved style edits, new_sheet, remove_sheet(_by_name), rename, workbook-level "
@@ -66,18 +82,22 @@ PROP = {
         "the opened package is a function from names to parts (getPart = the entry ZipArchive::by_name returns); duplicate zip entries are outside",
         "sheet parts of the file read live in xl/worksheets/ (relative targets keep their meaning next to the new name)",
         "bytes are identities (cid); in the tie FNV-64 of the bytes",
-        "DecoderLocal (explicit predicate, hypothesis of C11_untouched_decodes): the sheet decoder depends only on the sheet part, the relationships part next to it, the parts reachable "
-        "through relationships, and a prefix of each workbook-level table; NOT discharged for Umya.Spec.Sml.decodeSheet (checked by reload-and-compare instead)",
+        "DecoderLocal (explicit predicate) remains the hypothesis of the abstract C11_untouched_decodes; for Spec.Sml.decodeSheet it is replaced by the proved C11_decoder_local and the "
+        "explicit hypotheses of C11_save_concrete: Realises (the XML tree of a part is a function of its abstract content - bytes are identities; for a copied relationships part: ids, types and "
+        "target texts, which the model does not carry, are a function of the content), htbl (the model's resolved targets of the sheet's relationships part are what the spec's path rules give for "
+        "the relationships its tableParts use), SstCovers (shared-string indices of the sheet are inside the opened table: valid input)",
     ],
     "partial_clauses": [
-        "C11_save is proved at full strength on the model for all histories (C11_save_partial is gone). What remains open around it: (a) DecoderLocal is a hypothesis, not proved for the "
-        "concrete independent decoder Spec.Sml.decodeSheet, so 'untouched sheets decode to the same content' rests, for that decoder, on the harness' reload-and-compare; (b) a "
+        "C11_save is proved at full strength on the model for all histories (C11_save_partial is gone). What remains open around it: (a) [closed for the decoded VIEW: C11_decoder_local + "
+        "C11_save_concrete prove 'untouched sheets decode to the same content' for Spec.Sml.decodeSheet, modulo the realisation hypotheses listed under assumptions; not covered: the decoder's "
+        "diagnostics list, and parts the spec decoder does not look at (drawings, charts, comments: their bytes and names are C11_save's)]; (b) a "
         "deserialized sheet that asks for a FIXED part name (media) already owned by a raw closure gets the part that is there (C11_fixed_name_taken states it; same collision exists "
         "between two deserialized sheets in the eager workbook: inherited); (c) 'an accessed but unedited sheet has the same content' is serialise(decode(raw)) = C01-C06's round trip",
         "validity beyond the skeleton (XML content of generated parts, content types of workbook-level parts) is C02's; the harness validator checks content-type coverage, "
         "duplicate names, rIds and workbook.xml <-> workbook.xml.rels <-> sheet parts on every save, differentially against the eager save",
-        "the reader model (readClosure) takes fuel = number of parts + 1; that this suffices for every acyclic relationship graph is not proved (the theorems assume lazyOpen x = some b0, "
-        "i.e. that the open succeeded; a cyclic graph overflows the stack in the code)",
+        "fuel of the reader model: closed (C11_read_closure_fuel / C11_read_closure_cyclic). Not proved: that pkgOk implies acyclicity (it does not: a cycle through non-sheet parts, "
+        "drawing -> drawing, is hygienic; such a package makes lazyOpen = none in the model and overflows the stack in the code, lazy and eager alike - proposed known finding C11-cyclic-rels-overflow, "
+        "packages /var/tmp/w46/cyclic_sheet.xlsx, cyclic_self.xlsx)",
     ],
     "technique": "Lean 4 proofs (simulation lazy/eager over all histories, package-consistency invariant by induction on the history, find-or-append prefix lemmas, append-only writer manager with content-aware extension relation) + stateful differential check lazy vs eager with an independent package-skeleton reader",
 }
